@@ -7,7 +7,7 @@ from kfv.rules import dist_rules as D
 
 NEEDS_TYPES = False
 TECHNIQUE = ('index-set algebra of pack/unpack (same generator, same (rows, cols), offset 0; mirror through a transpose with offset <= 1), '
-             'layout-independence lint, dominance of the shape validation over packing and communication, rank-space lint')
+             'layout-independence lint, dominance of the shape validation over packing and communication, rank-space lint; configuration forwarding of symmetry_aware')
 EXPLANATION = (
     'get_triu and fill_triu are reduced to index-set terms under the torch semantics of triu_indices (A3): the pack gathers '
     'T[I0, I1] with I = triu_indices(rows(T), cols(T), 0); the unpack scatters the packed vector to the same enumeration of a '
@@ -15,7 +15,7 @@ EXPLANATION = (
     'so Upper(0) u Upper(m)^T is the whole matrix.  Neither may depend on memory strides.  In the three communication functions '
     'the validation (2-D and square, on the shape captured before packing) raises before any packing or communication, all ranks '
     'pack exactly when symmetric, and every pack is paired with one unpack into the captured shape.  Exact value equality per '
-    'dtype is torch\'s gather/scatter semantics and is not decided.')
+    'dtype is torch\'s gather/scatter semantics and is not decided. symmetry_aware reaches every layer type unconditionally (CFG-FWD).')
 
 NOT_DECIDED = 'exact value equality per dtype (torch gather/scatter)'
 
